@@ -1763,6 +1763,11 @@ class Cluster(object):
                 self._is_setup = True
 
         session = self._new_session(keyspace)
+        if self.is_shutdown:
+            # shutdown() ran while the session was being created and may have looked at
+            # self.sessions before this one was in it: nobody else would close its pools
+            session.shutdown()
+            raise DriverException("Cluster was shut down while connecting")
         if wait_for_all_pools:
             wait_futures(session._initial_connect_futures)
 
